@@ -320,5 +320,5 @@ def run(ctx):
                        'not start with an operator; <in> over all values up to length 3/4; <or> and <all-in> with every sequence of 1..5 '
                        'operands over a pool of 3/4 words; <range-in> x 4 bracket combinations x all triples of 9/15 numerals (on, next to, '
                        'inside, outside both ends, equal ends, reversed ends); each case replayed under 3/8 whitespace layouts; '
-                       'distinct_nontrivial = cases the specification says match')
+                       'the text operators once more with every word 300 characters longer; distinct_nontrivial = cases the specification says match')
     ctx.cov['exhaustive'] = True
